@@ -144,6 +144,14 @@ QUICK.append(_reg(_ovf_only(C14.INSTANCES["sym_x0d"], "footer_arith")).name); TH
 QUICK.append(_reg(_ovf_only(C07.INSTANCES["k2"], "range_arith")).name); THOROUGH.append(_reg(_ovf_only(C07.INSTANCES["T_k3"], "T_range_arith")).name)
 
 
+# queue arithmetic with items larger than the capacity and zero-size tokens (every interleaving), and the whole pipeline with a queue
+# smaller than one contig: no overflow assert may be reachable there either
+from harness import C05 as _C05
+for _src, _nm in (("over_p1c1", "queue_arith_over"), ("tokens_p1c1", "queue_arith_tokens"), ("pipe_api_t1_smallq", "pipe_arith_smallq")):
+    QUICK.append(_reg(_ovf_only(_C05.INSTANCES[_src], _nm)).name); THOROUGH.append(_nm)
+THOROUGH.append(_reg(_ovf_only(_C05.INSTANCES["T_pipe_api_t3"], "T_pipe_arith_t3")).name)
+
+
 def run(ctx):
     insts = [INSTANCES[n] for n in (QUICK if ctx["tier"] == "quick" else THOROUGH)]
     return run_instances("C18", "harness.C18", insts, ctx,
